@@ -123,7 +123,7 @@ func (w *world) runNested(key string) { w.runNestedOpts(key, false) }
 func (w *world) runNestedOpts(key string, noPublish bool) {
 	ops := w.c.Nested[key]
 	for _, op := range ops {
-		if noPublish && (op.K == "pub" || op.K == "pubctx") {
+		if noPublish && (op.K == "pub" || op.K == "pubctx" || op.K == "pubcancel") {
 			continue
 		}
 		if w.fuel.Add(-1) < 0 {
@@ -187,6 +187,19 @@ func (w *world) exec(op Op, nested bool) {
 	case "pubctx":
 		defer w.enter(clsPub)()
 		tops.Pub(bus, context.WithValue(ctx, ctxKey{}, 1), int(w.ids.Add(1)))
+	case "pubcancel":
+		// a publish whose context is cancelled by another goroutine while it
+		// is (possibly) still being dispatched
+		defer w.enter(clsPub)()
+		cctx, cancel := context.WithCancel(context.WithValue(ctx, ctxKey{}, 2))
+		go func() {
+			for y := 0; y < op.N%4; y++ {
+				runtime.Gosched()
+			}
+			cancel()
+		}()
+		tops.Pub(bus, cctx, int(w.ids.Add(1)))
+		cancel()
 	case "sub":
 		defer w.enter(clsRegW)()
 		var so []eventbus.SubscribeOption
